@@ -1,67 +1,18 @@
-(** C08 — the optimized search of EdgeQuery (branch and bound over index cells) returns
-    what the brute-force scan returns.
-
-    Setting: an exact target ([updateDistanceToEdge]/[updateDistanceToCell] answer
-    "d < limit ? d"), a permitted error that does not change distances
-    ([sub d maxError = d]), and the premises
-      [LB]         the distance to a cell is a lower bound for every edge of an index cell it represents,
-      [CoverSound] the initial entries represent every index cell closer than the limit,
-      [SplitSound] splitting a cell represents every index cell below it,
-      [HeapSpec]   the priority queue pops a minimal entry and keeps the others.
-    Invariant ([Post]): every edge better than the current limit has been reported or lies
-    in an index cell represented by a queued entry (whose key is then <= its distance). *)
+(** C08 — targets that substitute approximate distances (ShapeIndex targets with MaxError > 0).
+    The development of C08_Opt.v redone for a target whose updateDistanceToEdge may return any
+    value [v] allowed by [Val e v] (within the permitted error of the true distance [tdist e])
+    and whose cell distances, made conservative, are lower bounds ([CellKey]).
+    Results: with MaxResults = 1 the single result is within the error of the optimum; with
+    MaxResults <> 1 every edge within the limit is reported, every reported value is allowed,
+    with duplicate avoidance (testedEdges, as repaired) no edge is reported twice, and no edge
+    better than a reported one by more than the error is missing from the truncated output. *)
 From Coq Require Import ZArith List Bool Lia Sorted Permutation.
-From Geo Require Import Model.EdgeQuery Proofs.C08_Post.
+From Geo Require Import Model.EdgeQuery Proofs.C08_Post Proofs.C08_Opt.
 Import ListNotations.
 Local Open Scope Z_scope.
 
-Section Order.
-  Variable D : Type.
-  Variable ops : dist_ops D.
-  Hypothesis OK : DistOK ops.
-  Notation less := (d_less ops).
-
-  Lemma less_cases a b : less a b = true \/ a = b \/ less b a = true.
-  Proof.
-    destruct (less a b) eqn:E1; [left; reflexivity|].
-    destruct (less b a) eqn:E2; [right; right; reflexivity|].
-    right; left. apply (less_total _ OK); assumption.
-  Qed.
-
-  Lemma less_asym a b : less a b = true -> less b a = false.
-  Proof.
-    intros H. destruct (less b a) eqn:E; [|reflexivity].
-    pose proof (less_trans _ OK _ _ _ H E) as T. rewrite (less_irrefl _ OK) in T. discriminate.
-  Qed.
-
-  (** a <= b is [less b a = false] *)
-  Lemma le_trans a b c : less b a = false -> less c b = false -> less c a = false.
-  Proof.
-    intros H1 H2. destruct (less c a) eqn:E; [|reflexivity].
-    destruct (less_cases a b) as [L|[->|L]]; [|congruence|congruence].
-    pose proof (less_trans _ OK _ _ _ E L). congruence.
-  Qed.
-
-  Lemma lt_le_trans a b c : less a b = true -> less c b = false -> less a c = true.
-  Proof.
-    intros H1 H2. destruct (less_cases a c) as [L|[->|L]]; [exact L|congruence|].
-    pose proof (less_trans _ OK _ _ _ L H1). congruence.
-  Qed.
-
-  Lemma le_lt_trans a b c : less b a = false -> less b c = true -> less a c = true.
-  Proof.
-    intros H1 H2. destruct (less_cases a b) as [L|[->|L]]; [|exact H2|congruence].
-    eapply (less_trans _ OK); eauto.
-  Qed.
-
-  Lemma le_refl a : less a a = false.
-  Proof. apply (less_irrefl _ OK). Qed.
-
-  Lemma le_antisym a b : less a b = false -> less b a = false -> a = b.
-  Proof. apply (less_total _ OK). Qed.
-End Order.
-
-Section Opt.
+Module Approx.
+Section Apx.
   Variable D : Type.
   Variable ops : dist_ops D.
   Hypothesis OK : DistOK ops.
@@ -72,24 +23,35 @@ Section Opt.
   Variable t : target D.
   Variable x : index.
 
-  Variable edist : eid -> D.
-  Variable cdist : Z -> D.
-  (** exact target: the update functions answer "d < limit ? d" *)
-  Hypothesis EdgeExact : forall e lim,
-    t_upd_edge t e lim = if less (edist e) lim then Some (edist e) else None.
-  Hypothesis CellExact : forall c lim,
-    t_upd_cell t c lim = if less (cdist c) lim then Some (cdist c) else None.
+  Variable tdist : eid -> D.          (* true distance of an edge *)
+  Variable tcell : Z -> D.            (* true distance of a cell *)
+  Variable Val : eid -> D -> Prop.    (* the values the target may report for an edge *)
+  Variable cons : bool.               (* useConservativeCellDistance *)
+  Variable av : bool.                 (* avoidDuplicates *)
+  Notation err := (o_max_error o).
+  (** updateDistanceToEdge: a reported value is below the limit and allowed; no report means
+      the edge is not better than the limit *)
+  Hypothesis EdgeSpec : forall e lim, match t_upd_edge t e lim with
+    | Some v => less v lim = true /\ Val e v
+    | None => less (tdist e) lim = false end.
+  (** updateDistanceToCell: the queue key made of a reported value is a lower bound of the
+      cell's true distance; no report means the cell is not better than the limit *)
+  Hypothesis CellSpec : forall c lim, match t_upd_cell t c lim with
+    | Some v => less (tcell c) (if cons then sub v err else v) = false
+    | None => less (tcell c) lim = false end.
   (** subtracting the permitted error never makes a distance worse: sub d maxError <= d *)
   Hypothesis SubLe : forall d, less d (sub d (o_max_error o)) = false.
-  Notation err := (o_max_error o).
+  (** an allowed value is within the error: h <= v implies sub h err <= tdist e *)
+  Hypothesis ValHd : forall e v h, Val e v -> less v h = false -> less (tdist e) (sub h err) = false.
 
   Notation madd := (maybe_add_result D ops o t false).
   Notation pedges := (process_edges D ops o t false).
 
-  Definition mkres (e : eid) : result D := mkR (edist e) (fst e) (snd e).
-  Definition Found (st : state D) (e : eid) : Prop := In (mkres e) (s_results st).
+  Definition res (v : D) (e : eid) : result D := mkR v (fst e) (snd e).
+  (** the edge has been reported with an allowed value *)
+  Definition Found (st : state D) (e : eid) : Prop := exists v, In (res v e) (s_results st) /\ Val e v.
   (** [e] needs no further attention: not better than the limit, or reported *)
-  Definition Done (st : state D) (e : eid) : Prop := less (edist e) (s_limit st) = false \/ Found st e.
+  Definition Done (st : state D) (e : eid) : Prop := less (tdist e) (s_limit st) = false \/ Found st e.
   Definition ext (st st' : state D) : Prop :=
     less (s_limit st) (s_limit st') = false /\ incl (s_results st) (s_results st') /\ incl (s_queue st) (s_queue st').
   Definition TestedOK (st : state D) : Prop := forall e, In e (s_tested st) -> Done st e.
@@ -107,9 +69,9 @@ Section Opt.
 
   Lemma done_stable st st' e : ext st st' -> Done st e -> Done st' e.
   Proof.
-    intros (L & R & _) [H|H]; [left|right].
+    intros (L & R & _) [H|(v & H & Hv)]; [left|right].
     - eapply (le_trans _ _ OK); eauto.
-    - apply R. exact H.
+    - exists v. split; [apply R; exact H|exact Hv].
   Qed.
 
   Lemma mem_eid_in e l : mem_eid e l = true -> In e l.
@@ -133,13 +95,21 @@ Section Opt.
   (** the three possible outcomes of maybeAddResult *)
   Inductive madd_outcome (avoid : bool) (st : state D) (e : eid) (st' : state D) : Prop :=
   | mo_skip : avoid = true -> In e (s_tested st) -> st' = st -> madd_outcome avoid st e st'
-  | mo_none : less (edist e) (s_limit st) = false ->
+  | mo_none : less (tdist e) (s_limit st) = false ->
       s_limit st' = s_limit st -> s_results st' = s_results st -> s_queue st' = s_queue st ->
-      (s_tested st' = s_tested st \/ s_tested st' = e :: s_tested st) -> madd_outcome avoid st e st'
-  | mo_add : less (edist e) (s_limit st) = true ->
-      s_limit st' = (if o_max_results o =? 1 then sub (edist e) err else s_limit st) ->
-      s_results st' = mkres e :: s_results st -> s_queue st' = s_queue st ->
-      (s_tested st' = s_tested st \/ s_tested st' = e :: s_tested st) -> madd_outcome avoid st e st'.
+      (s_tested st' = s_tested st \/ s_tested st' = e :: s_tested st) ->
+      incl (s_tested st) (s_tested st') -> madd_outcome avoid st e st'
+  | mo_add : forall v, less v (s_limit st) = true -> Val e v ->
+      s_limit st' = (if o_max_results o =? 1 then sub v err else s_limit st) ->
+      s_results st' = res v e :: s_results st -> s_queue st' = s_queue st ->
+      (s_tested st' = s_tested st \/ s_tested st' = e :: s_tested st) ->
+      (avoid = true -> ~ In e (s_tested st) /\ s_tested st' = e :: s_tested st) -> madd_outcome avoid st e st'.
+
+  Lemma mem_eid_false e l : mem_eid e l = false -> ~ In e l.
+  Proof.
+    unfold mem_eid. intros H Hin. assert (existsb (eid_eqb e) l = true); [|congruence].
+    apply existsb_exists. exists e. split; [exact Hin|]. unfold eid_eqb. rewrite !Z.eqb_refl. reflexivity.
+  Qed.
 
   Lemma madd_cases avoid st e : madd_outcome avoid st e (madd avoid st e).
   Proof.
@@ -152,18 +122,22 @@ Section Opt.
       assert (Q1 : s_queue st1 = s_queue st) by (subst st1; destruct avoid; reflexivity).
       assert (T1 : s_tested st1 = s_tested st \/ s_tested st1 = e :: s_tested st)
         by (subst st1; destruct avoid; [right|left]; reflexivity).
-      rewrite EdgeExact, L1. destruct (less (edist e) (s_limit st)) eqn:E2.
-      + apply mo_add; auto.
+      assert (T2 : avoid = true -> ~ In e (s_tested st) /\ s_tested st1 = e :: s_tested st).
+      { intros ->. cbn in E1. split; [apply mem_eid_false; exact E1|reflexivity]. }
+      pose proof (EdgeSpec e (s_limit st1)) as Sp. rewrite L1 in *.
+      destruct (t_upd_edge t e (s_limit st)) as [v|] eqn:E2.
+      + destruct Sp as [Lt Vv]. apply (mo_add avoid st e _ v); auto.
         * rewrite add_result_limit, L1. reflexivity.
         * rewrite add_result_results, R1. reflexivity.
         * rewrite add_result_queue. exact Q1.
         * rewrite add_result_tested. exact T1.
-      + apply mo_none; auto.
+        * rewrite add_result_tested. exact T2.
+      + apply mo_none; auto. destruct T1 as [->| ->]; [apply incl_refl|apply incl_tl, incl_refl].
   Qed.
 
   Lemma madd_ext avoid st e : ext st (madd avoid st e).
   Proof.
-    destruct (madd_cases avoid st e) as [_ _ ->|N L R Q _|A L R Q _].
+    destruct (madd_cases avoid st e) as [_ _ ->|N L R Q _ _|v A Vv L R Q _ _].
     - apply ext_refl.
     - unfold ext. rewrite L, R, Q. repeat split; [apply (le_refl _ _ OK)|apply incl_refl|apply incl_refl].
     - unfold ext. rewrite L, R, Q. repeat split; [|apply incl_tl, incl_refl|apply incl_refl].
@@ -172,18 +146,18 @@ Section Opt.
   Qed.
 
   Lemma madd_queue avoid st e : s_queue (madd avoid st e) = s_queue st.
-  Proof. destruct (madd_cases avoid st e) as [_ _ ->|_ _ _ Q _|_ _ _ Q _]; auto. Qed.
+  Proof. destruct (madd_cases avoid st e) as [_ _ ->|_ _ _ Q _ _|v _ _ _ _ Q _ _]; auto. Qed.
 
   Lemma madd_done avoid st e : TestedOK st -> TestedOK (madd avoid st e) /\ Done (madd avoid st e) e.
   Proof.
     intros T. pose proof (madd_ext avoid st e) as X.
-    destruct (madd_cases avoid st e) as [_ I E|N L R Q Ts|A L R Q Ts].
+    destruct (madd_cases avoid st e) as [_ I E|N L R Q Ts _|v A Vv L R Q Ts _].
     - rewrite E. split; [exact T|apply T; exact I].
     - assert (Dn : Done (madd avoid st e) e) by (left; rewrite L; exact N).
       split; [|exact Dn]. intros e' He'. destruct Ts as [Ts|Ts]; rewrite Ts in He'.
       + eapply done_stable; [exact X|apply T; exact He'].
       + destruct He' as [<-|He']; [exact Dn|eapply done_stable; [exact X|apply T; exact He']].
-    - assert (Dn : Done (madd avoid st e) e) by (right; unfold Found; rewrite R; left; reflexivity).
+    - assert (Dn : Done (madd avoid st e) e) by (right; exists v; rewrite R; split; [left; reflexivity|exact Vv]).
       split; [|exact Dn]. intros e' He'. destruct Ts as [Ts|Ts]; rewrite Ts in He'.
       + eapply done_stable; [exact X|apply T; exact He'].
       + destruct He' as [<-|He']; [exact Dn|eapply done_stable; [exact X|apply T; exact He']].
@@ -213,8 +187,9 @@ Section Opt.
   Section EdgeInv.
     Variable P : eid -> Prop.
     Variable I : state D -> Prop.
-    Hypothesis I_madd : forall avoid st e, P e -> I st -> I (madd avoid st e).
-    Lemma pedges_inv avoid es : (forall e, In e es -> P e) -> forall st, I st -> I (pedges avoid st es).
+    Variable avoid : bool.
+    Hypothesis I_madd : forall st e, P e -> I st -> I (madd avoid st e).
+    Lemma pedges_inv es : (forall e, In e es -> P e) -> forall st, I st -> I (pedges avoid st es).
     Proof.
       unfold process_edges. induction es as [|e es IH]; intros Pe st Ist; cbn; [exact Ist|].
       apply IH; [intros e' H; apply Pe; right; exact H|]. apply I_madd; [apply Pe; left; reflexivity|exact Ist].
@@ -228,7 +203,7 @@ Section Opt.
     Variable P : eid -> Prop.          (* the edges the search may touch *)
 
     Definition Sound (st : state D) : Prop := forall r, In r (s_results st) ->
-      In r R0 \/ exists e, P e /\ r = mkres e /\ less (edist e) L0 = true.
+      In r R0 \/ exists e v, P e /\ r = res v e /\ Val e v /\ less v L0 = true.
     Definition LimLe (st : state D) : Prop := less L0 (s_limit st) = false.
     Definition LimN (st : state D) : Prop := o_max_results o <> 1 -> s_limit st = L0.
     Definition Lim1 (st : state D) : Prop := o_max_results o = 1 -> R0 = [] ->
@@ -241,24 +216,24 @@ Section Opt.
     Lemma EI_madd avoid st e : P e -> EI st -> EI (madd avoid st e).
     Proof.
       intros Pe (S & Le & LN & L1).
-      destruct (madd_cases avoid st e) as [_ _ ->|N L R Q _|A L R Q _].
+      destruct (madd_cases avoid st e) as [_ _ ->|N L R Q _ _|v A Vv L R Q _ _].
       - split; [|split; [|split]]; assumption.
       - unfold EI, Sound, LimLe, LimN, Lim1. rewrite L, R. split; [|split; [|split]]; assumption.
-      - assert (AL0 : less (edist e) L0 = true) by (eapply (lt_le_trans _ _ OK); eauto).
+      - assert (AL0 : less v L0 = true) by (eapply (lt_le_trans _ _ OK); eauto).
         unfold EI, Sound, LimLe, LimN, Lim1. rewrite L, R. split; [|split; [|split]].
-        + intros r [<-|Hr]; [right; exists e; auto|apply S; exact Hr].
+        + intros r [<-|Hr]; [right; exists e, v; auto|apply S; exact Hr].
         + destruct (o_max_results o =? 1); [|exact Le].
           eapply (le_trans _ _ OK); [apply SubLe|apply (less_asym _ _ OK); exact AL0].
         + intros K. destruct (o_max_results o =? 1) eqn:E; [apply Z.eqb_eq in E; contradiction|apply LN; exact K].
         + intros K1 R0nil. rewrite K1. cbn.
           destruct (L1 K1 R0nil) as (B & _ & _).
-          assert (Old : forall r, In r (s_results st) -> less (r_dist r) (edist e) = false).
+          assert (Old : forall r, In r (s_results st) -> less (r_dist r) v = false).
           { intros r Hr. eapply (le_trans _ _ OK); [apply (less_asym _ _ OK); exact A|apply B; exact Hr]. }
           split; [|split].
           * intros r [<-|Hr]; [cbn; apply SubLe|].
             eapply (le_trans _ _ OK); [apply SubLe|apply Old; exact Hr].
           * intros; discriminate.
-          * intros _. exists (mkres e). split; [left; reflexivity|]. split; [reflexivity|].
+          * intros _. exists (res v e). split; [left; reflexivity|]. split; [reflexivity|].
             intros r' [<-|Hr']; [apply (le_refl _ _ OK)|apply Old; exact Hr'].
     Qed.
 
@@ -273,31 +248,23 @@ Section Opt.
     EI R0 L0 (fun e => In e (all_edges x)) st' /\ (forall e, In e (all_edges x) -> Done st' e) /\ ext st st'.
   Proof.
     intros T E. cbn. unfold find_edges_brute. split; [|split].
-    - apply (pedges_inv (fun e => In e (all_edges x)) (EI R0 L0 (fun e => In e (all_edges x)))); auto.
+    - apply (pedges_inv (fun e => In e (all_edges x)) (EI R0 L0 (fun e => In e (all_edges x))) false); auto.
       intros; apply EI_madd; auto.
     - apply pedges_done. exact T.
     - apply pedges_ext.
   Qed.
 
   (** *** the optimized search *)
-  Definition in_index (e : eid) : Prop := exists c, In c (x_cells x) /\ In e (snd c).
-  (** an entry handed to processOrEnqueue / held in the queue represents an index cell: it is
-      that cell with its contents, or a proper ancestor known not to be an index cell *)
-  Definition rep (ce : centry) (c : icell) : Prop :=
-    (fst ce = fst c /\ snd ce = Some (snd c)) \/
-    (snd ce = None /\ cid_contains (fst ce) (fst c) = true /\ fst ce <> fst c).
-  (** an entry is sound: its edges are index edges, and an entry without index cell properly
-      contains at least one index cell (so it is not a leaf cell and can be split) *)
-  Definition centry_ok (ce : centry) : Prop :=
-    (forall es, snd ce = Some es -> forall e, In e es -> in_index e) /\
-    (snd ce = None -> exists c, In c (x_cells x) /\ rep ce c).
+  Notation in_index := (C08_Opt.in_index x).
+  Notation rep := C08_Opt.rep.
+  Notation centry_ok := (C08_Opt.centry_ok x).
   Definition qrep (en : qentry D) (c : icell) : Prop := rep (q_id en, q_cell en) c.
 
   Variable Vq : Z -> Prop.              (* the cell ids the search may meet (valid cell ids) *)
   Variable HI : list (qentry D) -> Prop.  (* the heap invariant of the queue *)
 
   Hypothesis LB : forall ce c e, Vq (fst ce) -> In c (x_cells x) -> rep ce c -> In e (snd c) ->
-    less (edist e) (cdist (fst ce)) = false.
+    less (tdist e) (tcell (fst ce)) = false.
   Hypothesis SplitSound : forall q, Vq q -> (exists c, In c (x_cells x) /\ rep (q, None) c) ->
     (forall ce, In ce (split_cell x q) -> Vq (fst ce) /\ centry_ok ce) /\
     (forall c, In c (x_cells x) -> rep (q, None) c -> exists ce, In ce (split_cell x q) /\ rep ce c).
@@ -309,7 +276,7 @@ Section Opt.
     (forall b, In b q' -> less (q_dist b) (q_dist en) = false).
 
   Definition entry_ok (en : qentry D) : Prop :=
-    Vq (q_id en) /\ less (cdist (q_id en)) (q_dist en) = false /\ centry_ok (q_id en, q_cell en).
+    Vq (q_id en) /\ less (tcell (q_id en)) (q_dist en) = false /\ centry_ok (q_id en, q_cell en).
   Definition Qinv (st : state D) : Prop := HI (s_queue st) /\ forall en, In en (s_queue st) -> entry_ok en.
   Definition Post (st : state D) (c : icell) : Prop := forall e, In e (snd c) ->
     Done st e \/ exists en, In en (s_queue st) /\ qrep en c.
@@ -325,7 +292,7 @@ Section Opt.
   Section WithInv.
     (** [I] : any property of (limit, results, tested) kept by maybeAddResult on index edges *)
     Variable I : state D -> Prop.
-    Hypothesis I_madd : forall avoid st e, in_index e -> I st -> I (madd avoid st e).
+    Hypothesis I_madd : forall st e, in_index e -> I st -> I (madd av st e).
     Hypothesis I_queue : forall st q, I st -> I (set_queue D st q).
 
     Definition Inv (st : state D) : Prop := Qinv st /\ TestedOK st /\ I st.
@@ -334,20 +301,20 @@ Section Opt.
     Proof. intros T e He. exact (T e He). Qed.
 
     (** enqueue *)
-    Lemma enqueue_spec cons st ce : Vq (fst ce) -> centry_ok ce -> Inv st ->
+    Lemma enqueue_spec st ce : Vq (fst ce) -> centry_ok ce -> Inv st ->
       let st' := enqueue D ops o t cons st ce in
       Inv st' /\ ext st st' /\ (forall c, In c (x_cells x) -> rep ce c -> Post st' c).
     Proof.
-      intros V Cok ((H & Q) & T & Ist). cbn. unfold enqueue. rewrite CellExact.
-      destruct (less (cdist (fst ce)) (s_limit st)) eqn:E.
-      - set (d' := if cons then sub (cdist (fst ce)) (o_max_error o) else cdist (fst ce)).
-        assert (Ed : less (cdist (fst ce)) d' = false) by (subst d'; destruct cons; [apply SubLe|apply (le_refl _ _ OK)]).
+      intros V Cok ((H & Q) & T & Ist). cbn. unfold enqueue.
+      pose proof (CellSpec (fst ce) (s_limit st)) as Sp.
+      destruct (t_upd_cell t (fst ce) (s_limit st)) as [v|] eqn:E.
+      - set (d' := if cons then sub v (o_max_error o) else v) in *.
         set (en := mkQ d' (fst ce) (snd ce)).
         destruct (HI_push (s_queue st) en H) as [H' Mem].
         split; [|split].
         + split; [|split].
           * split; [exact H'|]. cbn. intros b Hb. apply Mem in Hb. destruct Hb as [->|Hb]; [|apply Q; exact Hb].
-            unfold entry_ok, en. cbn. split; [exact V|split; [exact Ed|]]. destruct ce; exact Cok.
+            unfold entry_ok, en. cbn. split; [exact V|split; [exact Sp|]]. destruct ce; exact Cok.
           * apply set_queue_tested. exact T.
           * apply I_queue. exact Ist.
         + unfold ext. cbn. split; [apply (le_refl _ _ OK)|split; [apply incl_refl|]].
@@ -358,20 +325,20 @@ Section Opt.
         + split; [split; assumption|split; assumption].
         + apply ext_refl.
         + intros c Hc R e He. left. left.
-          eapply (le_trans _ _ OK); [exact E|]. eapply LB; eauto.
+          eapply (le_trans _ _ OK); [exact Sp|]. eapply LB; eauto.
     Qed.
 
-    Lemma pedges_Inv avoid st es : (forall e, In e es -> in_index e) -> Inv st -> Inv (pedges avoid st es).
+    Lemma pedges_Inv st es : (forall e, In e es -> in_index e) -> Inv st -> Inv (pedges av st es).
     Proof.
       intros Pe ((H & Q) & T & Ist). split; [|split].
       - unfold Qinv. rewrite pedges_queue. split; assumption.
       - apply pedges_done. exact T.
-      - apply (pedges_inv in_index I); auto.
+      - apply (pedges_inv in_index I av); auto.
     Qed.
 
     (** processOrEnqueue *)
-    Lemma poe_spec cons avoid st ce : Vq (fst ce) -> centry_ok ce -> Inv st ->
-      let st' := process_or_enqueue D ops o t false cons avoid st ce in
+    Lemma poe_spec st ce : Vq (fst ce) -> centry_ok ce -> Inv st ->
+      let st' := process_or_enqueue D ops o t false cons av st ce in
       Inv st' /\ ext st st' /\ (forall c, In c (x_cells x) -> rep ce c -> Post st' c).
     Proof.
       intros V Cok Iv. cbn. unfold process_or_enqueue.
@@ -387,19 +354,19 @@ Section Opt.
         + apply pedges_ext.
         + intros c Hc [[_ R]|[R _]] e He; [|congruence].
           rewrite Es in R. injection R as R. left. destruct Iv as (_ & T & _).
-          apply (pedges_done avoid es st T). rewrite R. exact He.
+          apply (pedges_done av es st T). rewrite R. exact He.
     Qed.
 
     (** a list of entries handed to processOrEnqueue one after the other *)
-    Lemma poe_fold cons avoid l : forall st,
+    Lemma poe_fold l : forall st,
       (forall ce, In ce l -> Vq (fst ce) /\ centry_ok ce) -> Inv st ->
-      let st' := fold_left (process_or_enqueue D ops o t false cons avoid) l st in
+      let st' := fold_left (process_or_enqueue D ops o t false cons av) l st in
       Inv st' /\ ext st st' /\ (forall ce c, In ce l -> In c (x_cells x) -> rep ce c -> Post st' c).
     Proof.
       induction l as [|ce l IH]; intros st Hl Iv; cbn.
       - split; [exact Iv|split; [apply ext_refl|]]. intros ? ? [].
       - destruct (Hl ce (or_introl eq_refl)) as [V Cok].
-        destruct (poe_spec cons avoid st ce V Cok Iv) as (Iv1 & X1 & P1).
+        destruct (poe_spec st ce V Cok Iv) as (Iv1 & X1 & P1).
         destruct (IH _ (fun ce' H => Hl ce' (or_intror H)) Iv1) as (Iv2 & X2 & P2).
         split; [exact Iv2|split; [eapply ext_trans; eauto|]].
         intros ce' c [<-|Hce] Hc R.
@@ -408,8 +375,8 @@ Section Opt.
     Qed.
 
     (** one iteration of the loop of findEdgesOptimized *)
-    Lemma step_spec cons avoid st : Inv st -> AllPost st ->
-      let st' := step D ops o t x false cons avoid st in
+    Lemma step_spec st : Inv st -> AllPost st ->
+      let st' := step D ops o t x false cons av st in
       Inv st' /\ AllPost st' /\ less (s_limit st) (s_limit st') = false /\ incl (s_results st) (s_results st').
     Proof.
       intros Iv AP. cbn. unfold step.
@@ -441,9 +408,9 @@ Section Opt.
           * apply pedges_ext.
           * intros c Hc [[_ R]|[R _]] e He; cbn in R; [|congruence].
             rewrite Ec in R. injection R as R. left.
-            destruct Iv1 as (_ & T1 & _). apply (pedges_done avoid es st1 T1). rewrite R. exact He.
+            destruct Iv1 as (_ & T1 & _). apply (pedges_done av es st1 T1). rewrite R. exact He.
         + destruct (SplitSound (q_id en) Ven (proj2 Cen eq_refl)) as [Sok Srep].
-          destruct (poe_fold cons avoid (split_cell x (q_id en)) st1 Sok Iv1) as (Iv2 & X2 & P2).
+          destruct (poe_fold (split_cell x (q_id en)) st1 Sok Iv1) as (Iv2 & X2 & P2).
           apply Gen; [exact Iv2|exact X2|].
           intros c Hc R. unfold qrep in R. rewrite Ec in R.
           destruct (Srep c Hc R) as (ce & Hce & Rce). eapply P2; eauto.
@@ -453,7 +420,7 @@ Section Opt.
         + intros c Hc e He. destruct (AP c Hc e He) as [Dn|(en' & Hen' & R)]; [left; exact Dn|].
           left. left. cbn.
           destruct (Q en' Hen') as (Ven' & Ken' & _).
-          assert (L1 : less (edist e) (cdist (q_id en')) = false) by (eapply (LB (q_id en', q_cell en')); eauto).
+          assert (L1 : less (tdist e) (tcell (q_id en')) = false) by (eapply (LB (q_id en', q_cell en')); eauto).
           assert (L2 : less (q_dist en') (q_dist en) = false).
           { destruct (Mem en' Hen') as [->|Hq']; [apply (le_refl _ _ OK)|apply Min; exact Hq']. }
           eapply (le_trans _ _ OK); [|exact L1]. eapply (le_trans _ _ OK); [|exact Ken'].
@@ -462,14 +429,14 @@ Section Opt.
         + apply incl_refl.
     Qed.
 
-    Lemma run_spec cons avoid n : forall st, Inv st -> AllPost st ->
-      let st' := run D ops o t x false n cons avoid st in
+    Lemma run_spec n : forall st, Inv st -> AllPost st ->
+      let st' := run D ops o t x false n cons av st in
       Inv st' /\ AllPost st' /\ less (s_limit st) (s_limit st') = false /\ incl (s_results st) (s_results st').
     Proof.
       induction n as [|n IH]; intros st Iv AP; cbn.
       - apply step_spec; assumption.
       - destruct (IH st Iv AP) as (Iv1 & AP1 & L1 & R1).
-        destruct (s_queue (run D ops o t x false n cons avoid st)) eqn:Eq.
+        destruct (s_queue (run D ops o t x false n cons av st)) eqn:Eq.
         + split; [exact Iv1|split; [exact AP1|split; assumption]].
         + destruct (IH _ Iv1 AP1) as (Iv2 & AP2 & L2 & R2).
           split; [exact Iv2|split; [exact AP2|split]].
@@ -488,13 +455,13 @@ Section Opt.
   (** *** findEdgesOptimized as a whole *)
   Variable brk : bool.
   (** an empty target is infinitely far from everything; no distance is better than zero() *)
-  Hypothesis EmptyFar : t_cap_empty t = true -> forall e lim, less (edist e) lim = false.
-  Hypothesis ZeroMin : forall e, less (edist e) (d_zero ops) = false.
+  Hypothesis EmptyFar : t_cap_empty t = true -> forall e lim, less (tdist e) lim = false.
+  Hypothesis ZeroMin : forall e, less (tdist e) (d_zero ops) = false.
   (** the entries initQueue hands to processOrEnqueue represent every index cell that holds an
       edge better than the limit *)
   Hypothesis CoverSound : forall lim,
     (forall ce, In ce (init_entries D ops t x brk lim) -> Vq (fst ce) /\ centry_ok ce) /\
-    (forall c, In c (x_cells x) -> (exists e, In e (snd c) /\ less (edist e) lim = true) ->
+    (forall c, In c (x_cells x) -> (exists e, In e (snd c) /\ less (tdist e) lim = true) ->
        exists ce, In ce (init_entries D ops t x brk lim) /\ rep ce c).
 
   Lemma nth_in_or_default {A} (l : list A) n d : nth n l d = d \/ In (nth n l d) l.
@@ -509,11 +476,11 @@ Section Opt.
 
   Section OptWhole.
     Variable I : state D -> Prop.
-    Hypothesis I_madd : forall avoid st e, in_index e -> I st -> I (madd avoid st e).
+    Hypothesis I_madd : forall st e, in_index e -> I st -> I (madd av st e).
     Hypothesis I_queue : forall st q, I st -> I (set_queue D st q).
 
-    Lemma opt_spec cons avoid st : s_queue st = [] -> TestedOK st -> I st ->
-      let st' := find_edges_optimized D ops o t x false brk cons avoid st in
+    Lemma opt_spec st : s_queue st = [] -> TestedOK st -> I st ->
+      let st' := find_edges_optimized D ops o t x false brk cons av st in
       s_queue st' = [] ->
       I st' /\ (forall e, in_index e -> Done st' e) /\
       less (s_limit st) (s_limit st') = false /\ incl (s_results st) (s_results st').
@@ -527,7 +494,7 @@ Section Opt.
       (* the optional first look at the cell containing the target's centre *)
       set (p := if o_max_results o =? 1 then
                   match locate_leaf x (t_center_leaf t) with
-                  | Some pos => let s := pedges avoid st (it_cell x pos) in (s, d_eqb ops (s_limit s) (d_zero ops))
+                  | Some pos => let s := pedges av st (it_cell x pos) in (s, d_eqb ops (s_limit s) (d_zero ops))
                   | None => (st, false)
                   end
                 else (st, false)).
@@ -548,14 +515,14 @@ Section Opt.
         intros e _. left. rewrite (Hstop eq_refl). apply ZeroMin. }
       intros Efin.
       destruct (CoverSound (s_limit st1)) as [Cok Crep].
-      destruct (poe_fold I I_madd I_queue cons avoid _ st1 Cok Iv1) as (Iv2 & X2 & P2).
+      destruct (poe_fold I I_madd I_queue _ st1 Cok Iv1) as (Iv2 & X2 & P2).
       set (st2 := fold_left _ _ st1) in *.
       assert (AP2 : AllPost st2).
-      { intros c Hc e He. destruct (less (edist e) (s_limit st1)) eqn:El.
+      { intros c Hc e He. destruct (less (tdist e) (s_limit st1)) eqn:El.
         - destruct (Crep c Hc (ex_intro _ e (conj He El))) as (ce & Hce & R).
           apply (P2 ce c Hce Hc R e He).
         - left. eapply done_stable; [exact X2|]. left. exact El. }
-      destruct (run_spec I I_madd I_queue cons avoid run_fuel st2 Iv2 AP2) as (Iv3 & AP3 & L3 & R3).
+      destruct (run_spec I I_madd I_queue run_fuel st2 Iv2 AP2) as (Iv3 & AP3 & L3 & R3).
       split; [apply Iv3|split; [|split]].
       - apply (allpost_done _ AP3 Efin).
       - eapply (le_trans _ _ OK); [exact L3|]. eapply (le_trans _ _ OK); [apply X2|apply X1].
@@ -563,8 +530,11 @@ Section Opt.
     Qed.
   End OptWhole.
 
-  (** *** optimized = brute force *)
+
+  (** *** conclusions *)
   Hypothesis IndexOK : forall e, in_index e <-> In e (all_edges x).
+  (** an allowed value is not better than the true distance *)
+  Hypothesis ValLe : forall e v, Val e v -> less v (tdist e) = false.
 
   Lemma EI_init P st : EI (s_results st) (s_limit st) P st.
   Proof.
@@ -573,22 +543,6 @@ Section Opt.
     - apply (le_refl _ _ OK).
     - intros _. reflexivity.
     - intros _ E. rewrite E. split; [intros ? []|split; [reflexivity|intros N; contradiction]].
-  Qed.
-
-  Lemma EI_weaken R0 L0 (P Q : eid -> Prop) st : (forall e, P e -> Q e) -> EI R0 L0 P st -> EI R0 L0 Q st.
-  Proof.
-    intros PQ (S & R). split; [|exact R]. intros r Hr. destruct (S r Hr) as [H|(e & Pe & E)]; [left; exact H|].
-    right. exists e. split; [apply PQ; exact Pe|exact E].
-  Qed.
-
-  (** what a finished search has collected when the limit never moves (MaxResults <> 1) *)
-  Lemma final_set (P : eid -> Prop) R0 L0 st' : o_max_results o <> 1 -> EI R0 L0 P st' -> incl R0 (s_results st') ->
-    (forall e, P e -> Done st' e) ->
-    forall r, In r (s_results st') <-> (In r R0 \/ exists e, P e /\ r = mkres e /\ less (edist e) L0 = true).
-  Proof.
-    intros K (S & _ & LN & _) Inc Dn r. split; [apply S|].
-    intros [H|(e & Pe & -> & L)]; [apply Inc; exact H|].
-    destruct (Dn e Pe) as [N|F]; [|exact F]. rewrite (LN K) in N. congruence.
   Qed.
 
   Lemma truncate_k1 l : o_max_results o = 1 -> truncate D o l = firstn 1 l.
@@ -621,113 +575,144 @@ Section Opt.
     rewrite Eq. split; [exact Ers|exact Mrs].
   Qed.
 
-  Lemma no_elements {A} (l : list A) : (forall a, ~ In a l) -> l = [].
-  Proof. destruct l as [|a l]; [reflexivity|]. intros H. exfalso. apply (H a). left. reflexivity. Qed.
-
-  Theorem opt_eq_brute_core cons avoid st :
-    s_queue st = [] -> s_tested st = [] ->
-    let so := find_edges_optimized D ops o t x false brk cons avoid st in
-    let sb := find_edges_brute D ops o t x false st in
-    s_queue so = [] ->
-    (o_max_results o <> 1 ->
-       sort_unique ops (rev (s_results so)) = sort_unique ops (rev (s_results sb))) /\
-    (o_max_results o = 1 -> s_results st = [] -> (forall d, sub d err = d) ->
-       map r_dist (truncate D o (sort_unique ops (rev (s_results so)))) =
-       map r_dist (truncate D o (sort_unique ops (rev (s_results sb))))) /\
-    (forall r, In r (s_results so) -> In r (s_results st) \/
-       exists e, In e (all_edges x) /\ r = mkres e /\ less (edist e) (s_limit st) = true).
-  Proof.
-    intros Eq Et. cbn. intros Efin.
-    assert (T0 : TestedOK st) by (intros e He; rewrite Et in He; contradiction).
-    set (R0 := s_results st). set (L0 := s_limit st).
-    destruct (opt_spec (EI R0 L0 in_index) (fun a s e Pe H => EI_madd R0 L0 in_index a s e Pe H)
-                (fun s q H => H) cons avoid st Eq T0 (EI_init in_index st) Efin) as (EIo & Dno & _ & Inco).
-    destruct (brute_spec R0 L0 st T0 (EI_init _ st)) as (EIb & Dnb & Xb).
-    cbn in EIb, Dnb, Xb.
-    set (so := find_edges_optimized D ops o t x false brk cons avoid st) in *.
-    set (sb := find_edges_brute D ops o t x false st) in *.
-    assert (EIb' : EI R0 L0 in_index sb) by (eapply EI_weaken; [|exact EIb]; intros e He; apply IndexOK; exact He).
-    assert (Dnb' : forall e, in_index e -> Done sb e) by (intros e He; apply Dnb, IndexOK; exact He).
-    split; [|split].
-    - intros K. apply (sorted_set_eq D ops OK); try apply (sort_unique_sorted D ops OK).
-      intros c. rewrite !(sort_unique_in D ops OK), <- !in_rev.
-      rewrite (final_set in_index R0 L0 so K EIo Inco Dno), (final_set in_index R0 L0 sb K EIb' (proj1 (proj2 Xb)) Dnb'). tauto.
-    - intros K R0nil ErrZero. rewrite !(truncate_k1 _ K).
-      assert (R0e : R0 = []) by exact R0nil. rewrite R0e in *.
-      destruct (s_results so) as [|ro lo] eqn:Ero; destruct (s_results sb) as [|rb lb] eqn:Erb.
-      + reflexivity.
-      + (* optimized found nothing: no index edge is better than L0, so brute force finds nothing either *)
-        exfalso. destruct EIo as (_ & _ & _ & L1o). destruct (L1o K eq_refl) as (_ & Lo & _).
-        destruct EIb' as (Sb & _). destruct (Sb rb) as [[]|(e & Pe & _ & Le)]; [rewrite Erb; left; reflexivity|].
-        destruct (Dno e Pe) as [N|F]; [rewrite (Lo Ero) in N; congruence|].
-        unfold Found in F. rewrite Ero in F. contradiction.
-      + exfalso. destruct EIb' as (_ & _ & _ & L1b). destruct (L1b K eq_refl) as (_ & Lb & _).
-        destruct EIo as (So & _). destruct (So ro) as [[]|(e & Pe & _ & Le)]; [rewrite Ero; left; reflexivity|].
-        destruct (Dnb' e Pe) as [N|F]; [rewrite (Lb Erb) in N; congruence|].
-        unfold Found in F. rewrite Erb in F. contradiction.
-      + assert (NEo : s_results so <> []) by (rewrite Ero; discriminate).
-        assert (NEb : s_results sb <> []) by (rewrite Erb; discriminate).
-        destruct (k1_head L0 in_index so K EIo NEo) as (ho & tlo & Eho & Hho & Mo & _).
-        destruct (k1_head L0 in_index sb K EIb' NEb) as (hb & tlb & Ehb & Hhb & Mb & _).
-        rewrite Ero in Eho. rewrite Erb in Ehb. rewrite Eho, Ehb. cbn. f_equal.
-        rewrite ErrZero in Mo, Mb. rewrite <- Mo, <- Mb.
-        (* both limits are the minimum over the index edges *)
-        destruct EIo as (So & _ & _ & L1o). destruct EIb' as (Sb & _ & _ & L1b).
-        destruct (L1o K eq_refl) as (Bo & _ & _). destruct (L1b K eq_refl) as (Bb & _ & _).
-        destruct (So ho Hho) as [[]|(e1 & P1 & E1 & _)]. destruct (Sb hb Hhb) as [[]|(e2 & P2 & E2 & _)].
-        apply (le_antisym _ _ OK).
-        * (* limit sb <= limit so *)
-          rewrite Mo, E1. cbn. destruct (Dnb' e1 P1) as [N|F]; [exact N|]. apply (Bb _ F).
-        * rewrite Mb, E2. cbn. destruct (Dno e2 P2) as [N|F]; [exact N|]. apply (Bo _ F).
-    - intros r Hr. destruct EIo as (So & _). destruct (So r Hr) as [H|(e & Pe & E & L)]; [left; exact H|].
-      right. exists e. split; [apply IndexOK; exact Pe|split; assumption].
-  Qed.
-
-  (** *** MaxResults = 1 with any permitted error: the single result is within the error of the optimum *)
-  Lemma k1_result L0 (P : eid -> Prop) s : o_max_results o = 1 -> EI [] L0 P s -> (forall e, P e -> Done s e) ->
-    let out := truncate D o (sort_unique ops (rev (s_results s))) in
-    (s_results s = [] -> out = [] /\ forall e, P e -> less (edist e) L0 = false) /\
-    (s_results s <> [] -> exists hd, out = [hd] /\ In hd (s_results s) /\
-       forall e, P e -> less (edist e) (sub (r_dist hd) err) = false).
-  Proof.
-    intros K E Dn. cbn. rewrite (truncate_k1 _ K). split.
-    - intros Er. rewrite Er. split; [reflexivity|]. intros e Pe.
-      destruct E as (_ & _ & _ & L1). destruct (L1 K eq_refl) as (_ & Lz & _).
-      destruct (Dn e Pe) as [N|F]; [rewrite (Lz Er) in N; exact N|]. unfold Found in F. rewrite Er in F. contradiction.
-    - intros NE. destruct (k1_head L0 P s K E NE) as (hd & tl & Eh & Hh & Lh & Mh).
-      exists hd. rewrite Eh. split; [reflexivity|split; [exact Hh|]]. intros e Pe.
-      destruct (Dn e Pe) as [N|F]; [rewrite Lh in N; exact N|].
-      eapply (le_trans _ _ OK); [apply SubLe|]. apply (Mh _ F).
-  Qed.
-
-  Theorem opt_within_error_core cons avoid st :
+  (** MaxResults = 1: the single result is within the permitted error of the optimum *)
+  Theorem approx_k1 st :
     s_queue st = [] -> s_tested st = [] -> s_results st = [] -> o_max_results o = 1 ->
-    let so := find_edges_optimized D ops o t x false brk cons avoid st in
+    let so := find_edges_optimized D ops o t x false brk cons av st in
     s_queue so = [] ->
     let out := truncate D o (sort_unique ops (rev (s_results so))) in
-    (out = [] <-> forall e, In e (all_edges x) -> less (edist e) (s_limit st) = false) /\
+    (out = [] <-> forall e, In e (all_edges x) -> less (tdist e) (s_limit st) = false) /\
     (forall r, In r out ->
-       (exists e, In e (all_edges x) /\ r = mkres e /\ less (edist e) (s_limit st) = true) /\
-       (forall e, In e (all_edges x) -> less (edist e) (sub (r_dist r) err) = false)).
+       (exists e v, In e (all_edges x) /\ r = res v e /\ Val e v /\ less v (s_limit st) = true) /\
+       (forall e, In e (all_edges x) -> less (tdist e) (sub (r_dist r) err) = false)).
   Proof.
     intros Eq Et Er K. cbn. intros Efin.
     assert (T0 : TestedOK st) by (intros e He; rewrite Et in He; contradiction).
     pose proof (EI_init in_index st) as E0. rewrite Er in E0.
-    destruct (opt_spec (EI [] (s_limit st) in_index) (fun a s e Pe H => EI_madd [] (s_limit st) in_index a s e Pe H)
-                (fun s q H => H) cons avoid st Eq T0 E0 Efin) as (EIo & Dno & _ & _).
-    set (so := find_edges_optimized D ops o t x false brk cons avoid st) in *.
-    destruct (k1_result (s_limit st) in_index so K EIo Dno) as [Hnil Hne]. cbn in Hnil, Hne.
+    destruct (opt_spec (EI [] (s_limit st) in_index) (fun s e Pe H => EI_madd [] (s_limit st) in_index av s e Pe H)
+                (fun s q H => H) st Eq T0 E0 Efin) as (EIo & Dno & _ & _).
+    set (so := find_edges_optimized D ops o t x false brk cons av st) in *.
+    rewrite (truncate_k1 _ K).
     destruct (s_results so) as [|r0 l0] eqn:Ers.
-    - destruct (Hnil eq_refl) as [Eo Far]. rewrite Eo. split.
-      + split; [intros _ e He; apply Far, IndexOK; exact He|reflexivity].
-      + intros r [].
-    - destruct Hne as (hd & Eo & Hh & Opt); [discriminate|]. rewrite Eo. split.
+    - cbn. split; [|intros r []]. split; [|reflexivity]. intros _ e He. apply IndexOK in He.
+      destruct EIo as (_ & _ & _ & L1). destruct (L1 K eq_refl) as (_ & Lz & _).
+      destruct (Dno e He) as [N|(v & F & _)]; [rewrite (Lz Ers) in N; exact N|]. rewrite Ers in F. contradiction.
+    - assert (NE : s_results so <> []) by (rewrite Ers; discriminate).
+      destruct (k1_head (s_limit st) in_index so K EIo NE) as (hd & tl & Eh & Hh & Lh & Mh).
+      rewrite Ers in Eh. rewrite Eh. cbn [firstn].
+      destruct EIo as (So & _). destruct (So hd Hh) as [[]|(e0 & v0 & P0 & E0' & V0 & L0')].
+      split.
       + split; [discriminate|]. intros Far. exfalso.
-        destruct EIo as (So & _). destruct (So hd) as [[]|(e & Pe & _ & L)]; [rewrite Ers; exact Hh|].
-        rewrite (Far e (proj1 (IndexOK e) Pe)) in L. discriminate.
-      + intros r [<-|[]]. split.
-        * destruct EIo as (So & _). destruct (So hd) as [[]|(e & Pe & E & L)]; [rewrite Ers; exact Hh|].
-          exists e. split; [apply IndexOK; exact Pe|split; assumption].
-        * intros e He. apply Opt, IndexOK. exact He.
+        pose proof (Far e0 (proj1 (IndexOK e0) P0)) as F0. pose proof (ValLe e0 v0 V0) as Le0.
+        assert (less v0 (s_limit st) = false) by (eapply (le_trans _ _ OK); eauto). congruence.
+      + intros r [<-|[]]. split; [exists e0, v0; split; [apply IndexOK; exact P0|auto]|].
+        intros e He. apply IndexOK in He.
+        destruct (Dno e He) as [N|(v & F & Vv)]; [rewrite Lh in N; exact N|].
+        apply (ValHd e v (r_dist hd) Vv). apply (Mh _ F).
   Qed.
-End Opt.
+
+  (** *** MaxResults <> 1 *)
+  Definition rkey (r : result D) : eid := (r_shape r, r_edge r).
+  Lemma rkey_res v e : rkey (res v e) = e.
+  Proof. destruct e. reflexivity. Qed.
+
+  Section NoDupInv.
+    Variable R0 : list (result D).
+    (** the results added by the search carry pairwise different edges, all recorded as tested *)
+    Definition U (st : state D) : Prop := exists added, s_results st = added ++ R0 /\
+      NoDup (map rkey added) /\ forall r, In r added -> In (rkey r) (s_tested st).
+    Lemma U_madd st e : U st -> U (madd true st e).
+    Proof.
+      intros (added & ER & ND & Te).
+      destruct (madd_cases true st e) as [_ _ ->|N L R Q Ts Inc|v A Vv L R Q Ts Tt].
+      - exists added. auto.
+      - exists added. rewrite R. split; [exact ER|split; [exact ND|]]. intros r Hr. apply Inc, Te, Hr.
+      - destruct (Tt eq_refl) as [Nin Et]. exists (res v e :: added). rewrite R, ER, Et. split; [reflexivity|split].
+        + cbn [map]. rewrite rkey_res. constructor; [|exact ND].
+          intros Hin. apply in_map_iff in Hin. destruct Hin as (r & Er & Hr). apply Nin. rewrite <- Er. apply Te, Hr.
+        + intros r [<-|Hr]; [rewrite rkey_res; left; reflexivity|right; apply Te, Hr].
+    Qed.
+  End NoDupInv.
+
+  Hypothesis SubMono : forall a b, less b a = false -> less (sub b err) (sub a err) = false.
+
+  Lemma firstn_closed n : forall l, StronglySorted (rlt D ops) l ->
+    forall r r', In r (firstn n l) -> In r' l -> r_less ops r' r = true -> In r' (firstn n l).
+  Proof.
+    induction n as [|n IH]; intros l S r r' Hr Hr' Rr; [contradiction|].
+    destruct l as [|a l]; [contradiction|]. cbn [firstn] in *.
+    inversion S as [|? ? S' F]; subst. rewrite Forall_forall in F.
+    destruct Hr' as [->|Hr']; [left; reflexivity|]. right.
+    destruct Hr as [->|Hr]; [|eapply IH; eauto].
+    exfalso. specialize (F r' Hr'). unfold rlt in F. rewrite (rless_asym D ops OK _ _ F) in Rr. discriminate.
+  Qed.
+
+  Lemma firstn_in_l {A} n : forall (l : list A) c, In c (firstn n l) -> In c l.
+  Proof.
+    induction n as [|n IH]; intros l c H; [contradiction|]. destruct l as [|a l]; [contradiction|].
+    cbn in H. destruct H as [H|H]; [left; exact H|right; apply IH; exact H].
+  Qed.
+
+  Lemma truncate_firstn l : exists n, truncate D o l = firstn n l.
+  Proof.
+    unfold truncate. destruct (Z.of_nat (length l) >? o_max_results o); [eexists; reflexivity|].
+    exists (length l). symmetry. apply firstn_all.
+  Qed.
+
+  (** MaxResults <> 1: everything within the limit is reported with an allowed value, nothing
+      else is, duplicate avoidance reports no edge twice, and the truncated output misses no
+      edge that is better than a reported one by more than the permitted error *)
+  Theorem approx_all st :
+    s_queue st = [] -> s_tested st = [] -> o_max_results o <> 1 ->
+    (forall r, In r (s_results st) -> less (r_dist r) (s_limit st) = true) ->
+    let so := find_edges_optimized D ops o t x false brk cons av st in
+    s_queue so = [] ->
+    let out := truncate D o (sort_unique ops (rev (s_results so))) in
+    (forall r, In r (s_results so) -> In r (s_results st) \/
+       exists e v, In e (all_edges x) /\ r = res v e /\ Val e v /\ less v (s_limit st) = true) /\
+    (forall e, In e (all_edges x) -> less (tdist e) (s_limit st) = true ->
+       exists v, In (res v e) (s_results so) /\ Val e v) /\
+    (av = true -> exists added, s_results so = added ++ s_results st /\ NoDup (map rkey added)) /\
+    (forall r e, In r out -> In e (all_edges x) -> less (tdist e) (sub (r_dist r) err) = true ->
+       exists v, In (res v e) out /\ Val e v).
+  Proof.
+    intros Eq Et K R0below. cbn. intros Efin.
+    assert (T0 : TestedOK st) by (intros e He; rewrite Et in He; contradiction).
+    set (R0 := s_results st) in *. set (L0 := s_limit st) in *.
+    set (I := fun s => EI R0 L0 in_index s /\ (av = true -> U R0 s)).
+    assert (I_madd : forall s e, in_index e -> I s -> I (madd av s e)).
+    { intros s e Pe [E Uu]. split; [apply EI_madd; assumption|]. intros A. rewrite A. apply U_madd. apply Uu. exact A. }
+    assert (I0 : I st).
+    { split; [apply EI_init|]. intros _. exists []. split; [reflexivity|split; [constructor|intros ? []]]. }
+    destruct (opt_spec I I_madd (fun s q H => H) st Eq T0 I0 Efin) as ((EIo & Uo) & Dno & _ & Inco).
+    set (so := find_edges_optimized D ops o t x false brk cons av st) in *.
+    destruct EIo as (So & _ & LN & _).
+    assert (Comp : forall e, In e (all_edges x) -> less (tdist e) L0 = true -> exists v, In (res v e) (s_results so) /\ Val e v).
+    { intros e He Lt. apply IndexOK in He. destruct (Dno e He) as [N|F]; [rewrite (LN K) in N; congruence|exact F]. }
+    split; [|split; [exact Comp|split]].
+    - intros r Hr. destruct (So r Hr) as [H|(e & v & Pe & E & Vv & Lv)]; [left; exact H|].
+      right. exists e, v. split; [apply IndexOK; exact Pe|auto].
+    - intros A. destruct (Uo A) as (added & ER & ND & _). exists added. auto.
+    - intros r e Hr He Lt.
+      pose proof (sort_unique_sorted D ops OK (rev (s_results so))) as S.
+      destruct (truncate_firstn (sort_unique ops (rev (s_results so)))) as (n & En). rewrite En in Hr |- *.
+      assert (Hr' : In r (s_results so)).
+      { apply in_rev. apply (sort_unique_in D ops OK). eapply firstn_in_l; exact Hr. }
+      assert (RL : less (r_dist r) L0 = true).
+      { destruct (So r Hr') as [H|(e' & v' & _ & -> & _ & Lv)]; [apply R0below; exact H|exact Lv]. }
+      assert (TL : less (tdist e) L0 = true).
+      { eapply (less_trans _ OK); [exact Lt|]. eapply (le_lt_trans _ _ OK); [apply SubLe|exact RL]. }
+      destruct (Comp e He TL) as (v & Hv & Vv). exists v. split; [|exact Vv].
+      (* the reported value of e is strictly better than r *)
+      assert (Lv : less v (r_dist r) = true).
+      { destruct (less v (r_dist r)) eqn:E; [reflexivity|]. exfalso.
+        pose proof (SubMono _ _ E) as M. pose proof (ValHd e v v Vv (le_refl _ _ OK v)) as H1.
+        assert (less (tdist e) (sub (r_dist r) err) = false) by (eapply (le_trans _ _ OK); [exact M|exact H1]). congruence. }
+      apply (firstn_closed n _ S r (res v e) Hr).
+      + apply (sort_unique_in D ops OK). apply in_rev. rewrite rev_involutive. exact Hv.
+      + unfold r_less. cbn [r_dist res].
+        destruct (d_eqb ops v (r_dist r)) eqn:E; cbn [negb]; [|exact Lv].
+        apply (eqb_spec _ OK) in E. rewrite E in Lv. rewrite (less_irrefl _ OK) in Lv. discriminate.
+  Qed.
+End Apx.
+End Approx.
